@@ -1,5 +1,6 @@
 \* real bytes (base 256): shuffle of 0..3 elements, sample(n <= 3, k <= n); tapes of 1 byte explored, every tape of up to 2 bytes counted (65536 per case)
-CONSTANTS BW = 8
+CONSTANTS NaiveShuffle = FALSE
+BW = 8
 MaxN = 3
 MaxLen = 1
 FibreLen = 2
